@@ -351,8 +351,9 @@ VM_SPECS = r"""
         ensures final(self).same_but_reader(old(self)), final(self).cur_chunk() == old(self).cur_chunk(), r is Some,
     { unimplemented!() }
 
+    uninterp spec fn ip_spec(&self) -> u32;
     #[verifier::external_body]
-    fn ip(&self) -> u32 { unimplemented!() }
+    fn ip(&self) -> (r: u32) ensures r == self.ip_spec() { unimplemented!() }
     #[verifier::external_body]
     fn set_ip(&mut self, ip: u32)
         ensures final(self).same_but_reader(old(self)), final(self).cur_chunk() == old(self).cur_chunk(),
@@ -896,6 +897,26 @@ UNIT = Unit(
         old(self).call_stack@.len() == old_frame_count ==> final(self).execution_state == old(self).execution_state,
         // C07/C04: an error inside the overridden operator leaves no half-built value behind
         r is Err && old(self).call_stack@.len() == old_frame_count + 1 ==> final(self).builders_not_grown(old(self)),   // @no_builder_left_behind_on_error
+"""),
+        # the `TryStart { .. }` arm of execute_instruction (rule R13: the arm's body; the other ~150 arms of
+        # that function stay an assumed contract)
+        Fn(F, "impl KotoVm :: fn execute_instruction", props=("C04", "C07"), rename="execute_instruction__try_start_arm",
+           fragment=dict(start="let catch_ip = self.ip() + catch_offset as u32;", to_block_end=True,
+                         sig="fn execute_instruction(&mut self, arg_register: u8, catch_offset: u16)"),
+           spec=r"""
+    requires
+        old(self).call_stack@.len() > 0,                                      // an instruction runs in a frame
+        old(self).ip_spec() + catch_offset <= u32::MAX,                       // the catch block lies inside the chunk (C05)
+    ensures
+        // C04: entering `try` records, on the frame that is executing, where the handler is and how deep
+        // the sequence / string builder stacks are - in THAT order, which is the order the catch code
+        // of execute_instructions truncates them in - and changes nothing else
+        final(self).call_stack@.len() == old(self).call_stack@.len(),
+        final(self).call_stack@.last().catch_stack@ == old(self).call_stack@.last().catch_stack@.push(
+            (arg_register, (old(self).ip_spec() + catch_offset) as u32, old(self).sequence_builders@.len() as usize, old(self).string_builders@.len() as usize)),   // @catch_point_records_handler_and_builder_depths
+        forall|i: int| 0 <= i < old(self).call_stack@.len() - 1 ==> #[trigger] final(self).call_stack@[i] == old(self).call_stack@[i],   // @other_frames_untouched
+        final(self).sequence_builders@ == old(self).sequence_builders@ && final(self).string_builders@ == old(self).string_builders@
+            && final(self).registers@ == old(self).registers@ && final(self).register_base == old(self).register_base,   // @nothing_else_changes
 """),
         # the `Map(m) if .. @next ..` arm of run_iterator_next (rule R13: from its first statement to the end
         # of the arm; the rest of that 130-line function - temporary iterators, value pairs - is dropped)
